@@ -225,6 +225,7 @@ def make_ids(rng, nr):
         ids["r%ds" % r] = host + uid()
         ids["r%da" % r] = host + uid()
         ids["r%db" % r] = host + uid()
+        ids["r%dc" % r] = host + uid()
         ids["r%dt" % r] = host + uid()
         ids["r%du" % r] = host + uid()
         ids["r%dg" % r] = "http://sim%d.test:9000/CAPS/%s" % (r, uid()[:13])
@@ -331,8 +332,9 @@ def _algo(chk: Check, consts, label):
     """Algo layer (transcription of the multidict / reverse index / search order with the candidate
     repairs) checked against the property-level model by TLC.  With FirstMatch = TRUE or SwappedIndex = TRUE
     (the pinned tree's resolve_cap loop / register_proxy_cap indices) TLC produces the 5- and 3-state
-    counterexamples of the two genuine defects; the real code is never judged against this layer."""
-    cfg = ("SPECIFICATION ASpec\nCONSTANTS %s FirstMatch = FALSE SwappedIndex = FALSE\nCONSTRAINT Bound\n" % (CONSTS % consts)
+    counterexamples of the two genuine defects, with DedupeAdd = TRUE (update_caps skipping a pair the name
+    already has) the 7-state one of the grant history a, c, a; the real code is never judged against this layer."""
+    cfg = ("SPECIFICATION ASpec\nCONSTANTS %s FirstMatch = FALSE SwappedIndex = FALSE DedupeAdd = FALSE\nCONSTRAINT Bound\n" % (CONSTS % consts)
            + "".join("INVARIANT %s\n" % i for i in ("AlgoResolves", "AlgoTemps", "AlgoByName", "AlgoProxyStable")))
     common.model_check(chk, "Caps_Algo", cfg, "Caps_Algo " + label)
 
@@ -353,9 +355,13 @@ def run(chk: Check):
         _b1(chk, dict(NR=2, MaxSeed=2, MaxTemp=2, Grants="1,2,3,4,5,6,7", Depth=5), "2r-d5")
         # two sessions, asset URL shared across sessions (no one-shot caps)
         _b1(chk, dict(NR=3, MaxSeed=2, MaxTemp=0, Grants="1,5,6", Depth=5), "3r-d5-small")
+        # long grant histories of ONE name in one region: re-grants of an earlier URL (a c a, a c a c, a ax a ..)
+        _b1(chk, dict(NR=1, MaxSeed=4, MaxTemp=0, Grants="1,2,8", Depth=9), "1r-regrant-d9")
         _algo(chk, dict(NR=2, MaxSeed=2, MaxTemp=1, Grants="1,3", Depth=5), "2r-d5-small")
     else:
         _b1(chk, dict(NR=3, MaxSeed=2, MaxTemp=1, Grants="1,2,3,4,5,6,7", Depth=5), "3r-d5")
-        _b1(chk, dict(NR=2, MaxSeed=3, MaxTemp=2, Grants="1,2,3,4,5,6,7", Depth=6), "2r-d6")
-        _algo(chk, dict(NR=2, MaxSeed=2, MaxTemp=1, Grants="1,2,3,4,5,6,7", Depth=5), "2r-d5")
+        _b1(chk, dict(NR=2, MaxSeed=3, MaxTemp=2, Grants="1,2,3,4,5,6,7,8", Depth=6), "2r-d6")
+        _b1(chk, dict(NR=1, MaxSeed=5, MaxTemp=1, Grants="1,2,3,8", Depth=11), "1r-regrant-d11")
+        _algo(chk, dict(NR=2, MaxSeed=2, MaxTemp=1, Grants="1,2,3,4,5,6,7,8", Depth=5), "2r-d5")
+        _algo(chk, dict(NR=1, MaxSeed=4, MaxTemp=0, Grants="1,2,8", Depth=9), "1r-regrant-d9")
     chk.cov["exhaustive"] = True
